@@ -62,6 +62,32 @@ class guard:
         return False
 
 
+def robust(n_extra=0, fill=None):
+    """Decorator for per-case functions: an exception escaping from the code under test (one the check did not
+    anticipate) is itself an observation - it is turned into a violation tuple in the function's return shape
+    instead of crashing the run. Harness-level signals (timeouts, replay divergence, HarnessError) pass through."""
+    def deco(fn):
+        def wrapped(*a, **k):
+            try:
+                return fn(*a, **k)
+            except (CaseTimeout, HarnessError):
+                raise
+            except Exception as e:
+                if type(e).__name__ == 'ReplayDivergence':
+                    raise
+                tb = traceback.format_exc().strip().splitlines()
+                v = [('unexpected-exception:%s:%s' % (fn.__name__, type(e).__name__), 'no exception', tb[-3:],
+                      'the code under test raised an exception this check does not expect here')]
+                if n_extra == 0:
+                    return v
+                extra = fill if isinstance(fill, tuple) else (fill,) * n_extra
+                return (v,) + tuple(extra)
+        wrapped.__name__ = fn.__name__
+        wrapped.__doc__ = fn.__doc__
+        return wrapped
+    return deco
+
+
 def jsonable(x, depth=0):
     """Best-effort conversion of a case/observation to something json.dump accepts."""
     import numpy as np
